@@ -773,6 +773,17 @@ def getattr_(fr, base, attr, node):
                 return I.opaque(f"class attr {attr}: {e}")
         if attr == "__class__":
             return ClassRef(base.cls)
+        if attr == "__dict__":
+            # the instance dictionary (a snapshot: stores through it are not modelled), private names in their mangled spelling
+            def owner_of(k):
+                for c in repo.mro(base.cls):
+                    if any(isinstance(x, ast.Attribute) and x.attr == k and isinstance(x.ctx, ast.Store) for m_ in c.methods.values() for x in ast.walk(m_.node)):
+                        return c.name
+                return base.cls.name
+            return {(f"_{owner_of(k).lstrip('_')}{k}" if k.startswith("__") and not k.endswith("__") else k): v for k, v in base.attrs.items() if k != "__flags__"}
+        ga_ = repo.find_method(base.cls, "__getattr__")
+        if ga_ is not None and not (attr.startswith("__") and attr.endswith("__")) and getattr(fr.fi, "qualname", "") != ga_.qualname:
+            return I.call(ga_, [base, attr], {}, base.cls)
         if "symbolic_self" in base.attrs.get("__flags__", ()):
             v = symbolic_field(fr, base, attr)
             base.attrs[attr] = v
@@ -1436,7 +1447,19 @@ def b_print(fr, args, kw, n):
 def b_hasattr(fr, args, kw, n):
     o, a = args
     if isinstance(o, AObj):
-        return a in o.attrs or fr.I.repo.find_method(o.cls, a) is not None or fr.I.repo.class_attr_owner(o.cls, a) is not None
+        found = a in o.attrs or fr.I.repo.find_method(o.cls, a) is not None or fr.I.repo.class_attr_owner(o.cls, a) is not None
+        if not found:
+            ga = fr.I.repo.find_method(o.cls, "__getattr__")
+            if ga is not None and isinstance(a, str):
+                # the class answers unknown attribute names itself: hasattr is "does __getattr__ return (rather than raise AttributeError)"
+                try:
+                    fr.I.call(ga, [o, a], {}, o.cls)
+                    return True
+                except PathRaise as e:
+                    if e.exc == "AttributeError":
+                        return False
+                    raise
+        return found
     if isinstance(o, AOpq):
         return fr.I.opaque("hasattr of opaque")
     return hasattr(o, a) if not is_abs(o) else False
@@ -2287,6 +2310,17 @@ def external(fr, name, args, kw, n):
         o = I.opaque("impure:" + name, notnone=True)
         o.unique = True
         return o
+    if name in ("uuid.uuid5", "uuid.uuid3") and len(args) == 2 and not deep_abs(args[1]):
+        # name-based identifiers are a FUNCTION of their arguments: equal names give the one same identifier on a path
+        memo = I.st.__dict__.setdefault("uuid_by_name", {})
+        k_ = (name, args[0].why if isinstance(args[0], AOpq) else (repr(args[0]) if isinstance(args[0], (str, bytes, int, tuple)) else type(args[0]).__name__), repr(args[1]))
+        if k_ not in memo:
+            o = I.opaque(f"{name} of {args[1]!r}", notnone=True)
+            o.unique = True
+            memo[k_] = o
+        return memo[k_]
+    if name.startswith("uuid.NAMESPACE_"):
+        return I.opaque(name, notnone=True)
     if name.startswith("datetime.") or name.startswith("time.") or name.startswith("secrets.") or name.startswith("random.") or name.startswith("uuid."):
         return I.opaque("impure:" + name, notnone=True)
     if name == "struct.pack" or name == "struct.unpack":
